@@ -415,4 +415,217 @@ theorem tight_pipeline {domain : List (DomVar (Ext K))} {tol : Ext K} {an : Anal
         simp only [Bounds.ofVarType, mem_iff, a_ofInt, LB_fin, UB_fin, ef_ofInt] at hdecl
         exact ⟨⟨hint', hdecl.1⟩, hdecl.2⟩
 
+/-! ### soundness of the published domain at every source-feasible assignment (C07 + C10) -/
+
+open Classical in
+/-- some value in the domain (0 if there is none). -/
+noncomputable def tyWitness (ty : VarType (Ext K)) : K :=
+  if h : ∃ x : K, InDomain ty x then Classical.choose h else 0
+
+open Classical in
+/-- `ρ` on the used variables, an in-domain value on every unused declaration. -/
+noncomputable def fixUnused (ρ : String → K) (domain : List (DomVar (Ext K))) : String → K :=
+  fun n => if inScope domain n then ρ n else
+    match domain.find? (fun d => d.name == n) with
+    | some d => tyWitness d.ty
+    | none => 0
+
+theorem fixUnused_used {ρ : String → K} {domain : List (DomVar (Ext K))} {n : String} (h : inScope domain n) :
+    fixUnused ρ domain n = ρ n := by
+  unfold fixUnused; rw [if_pos h]
+
+theorem find_of_nodup {domain : List (DomVar (Ext K))} (hnd : (domain.map (·.name)).Nodup) {d : DomVar (Ext K)}
+    (hd : d ∈ domain) : domain.find? (fun x => x.name == d.name) = some d := by
+  cases hf : domain.find? (fun x => x.name == d.name) with
+  | none =>
+    rw [List.find?_eq_none] at hf
+    exact absurd (by simp) (hf d hd)
+  | some d' =>
+    have hm := List.mem_of_find?_eq_some hf
+    have hn : d'.name = d.name := by simpa using List.find?_some hf
+    rw [domvar_eq_of_name hnd hm hd hn]
+
+theorem fixUnused_inDomain {ρ : String → K} {domain : List (DomVar (Ext K))} (hok : DeclOK domain)
+    (hd : DomSat ρ domain) : ∀ d ∈ domain, InDomain d.ty (fixUnused ρ domain d.name) := by
+  intro d hdm
+  by_cases hu : d.usage > 0
+  · rw [fixUnused_used ⟨d, hdm, rfl, hu⟩]
+    exact InDomain_of_inDomain (hok.nn d hdm) (hd d hdm hu)
+  · have hu0 : d.usage = 0 := by omega
+    have hns : ¬ inScope domain d.name := by
+      rintro ⟨d', hd', hn, hu'⟩
+      have := domvar_eq_of_name hok.nodup hd' hdm hn
+      subst this; omega
+    unfold fixUnused
+    rw [if_neg hns, find_of_nodup hok.nodup hdm]
+    simp only
+    have hex := hok.inhabited d hdm hu0
+    unfold tyWitness
+    rw [dif_pos hex]
+    exact Classical.choose_spec hex
+
+theorem nfb_cons (c0 : Constraint (Ext K)) (cs0 : List (Constraint (Ext K))) (h0 : c0.isAssert = false) :
+    Compile.normalizedForBounds (c0 :: cs0) =
+      (Compile.normalizedForBounds cs0).bind fun rest =>
+        (normalizeExp c0.lhs).bind fun l => (normalizeExp c0.rhs).bind fun r =>
+          some ({ c0 with lhs := l, rhs := r } :: rest) := by
+  simp only [Compile.normalizedForBounds, List.foldr_cons, h0]
+  rfl
+
+/-- the shape of `normalized_for_bounds` on comparison constraints. -/
+theorem normalizedForBounds_mem : ∀ (cs0 cs : List (Constraint (Ext K))),
+    Compile.normalizedForBounds cs0 = some cs → (∀ c ∈ cs0, c.isAssert = false) →
+    ∀ c' ∈ cs, ∃ c ∈ cs0, ∃ l r, normalizeExp c.lhs = some l ∧ normalizeExp c.rhs = some r ∧
+      c' = { c with lhs := l, rhs := r }
+  | [], cs, h, _ => by
+    simp only [Compile.normalizedForBounds, List.foldr_nil, Option.some.injEq] at h
+    subst h; intro c' hc'; cases hc'
+  | c0 :: cs0, cs, h, hna => by
+    rw [nfb_cons c0 cs0 (hna c0 (by simp))] at h
+    cases hrest : Compile.normalizedForBounds cs0 with
+    | none => simp [hrest] at h
+    | some rest =>
+      cases hl : normalizeExp c0.lhs with
+      | none => simp [hrest, hl] at h
+      | some l =>
+        cases hr : normalizeExp c0.rhs with
+        | none => simp [hrest, hl, hr] at h
+        | some r =>
+          simp only [hrest, hl, hr, Option.bind_some, Option.some.injEq] at h
+          subst h
+          intro c' hc'
+          rcases List.mem_cons.mp hc' with rfl | hc'
+          · exact ⟨c0, by simp, l, r, hl, hr, rfl⟩
+          · obtain ⟨c, hc, rest'⟩ := normalizedForBounds_mem cs0 rest hrest
+              (fun c hc => hna c (by simp [hc])) c' hc'
+            exact ⟨c, by simp [hc], rest'⟩
+
+theorem cmpHolds_of_cmpK {c : Cmp} {a b : K} (h : cmpK c a b = true) : BoundsSem.cmpHolds c a b := by
+  cases c <;> simp_all [cmpK, BoundsSem.cmpHolds]
+
+/-- **the published domain contains every source-feasible assignment** — through the normalisation the
+bound inference reads (C10), `analyze`, `enforceable` and `apply_to_domain` (C07). -/
+theorem sound_pipeline {m : Model (Ext K)} {t : K} (ht : 0 ≤ t) (maxSteps : Nat)
+    (hm : FragModel true m m.domain) (hok : DeclOK m.domain) {cs : List (Constraint (Ext K))}
+    (hcs : Compile.normalizedForBounds m.constraints = some cs) (ρ : String → K) (hs : srcFeasible m ρ = true) :
+    DomSat ρ (((Analyzer.analyze m.domain cs (.fin t) maxSteps).enforceable m.domain).applyToDomain m.domain) := by
+  obtain ⟨hc, hd⟩ := (srcFeasible_iff m ρ).mp hs
+  set ρ' := fixUnused ρ m.domain with hρ'
+  have hdom : ∀ d ∈ m.domain, InDomain d.ty (ρ' d.name) := fixUnused_inDomain hok hd
+  have hag : ∀ x, inScope m.domain x → ρ' x = ρ x := fun x hx => fixUnused_used hx
+  have hholds : ∀ c' ∈ cs, Holds ρ' c' := by
+    intro c' hc'
+    obtain ⟨c, hcm, l, r, hl, hr, rfl⟩ := normalizedForBounds_mem _ _ hcs (fun c hc => (hm.cons c hc).notAssert) c' hc'
+    have hsc := hm.cons c hcm
+    obtain ⟨a, b, ha, hb⟩ := hsc.defined ρ
+    have hcmp : cmpK c.cmp a b = true := by
+      have := hc c hcm
+      rwa [constraintHolds_arith hsc.notAssert ha hb] at this
+    have ha' : eval ρ' c.lhs = some a := by rw [eval_congr c.lhs (fun x hx => hag x (hsc.lhs.2 x hx))]; exact ha
+    have hb' : eval ρ' c.rhs = some b := by rw [eval_congr c.rhs (fun x hx => hag x (hsc.rhs.2 x hx))]; exact hb
+    exact ⟨a, b, normalize_eval_frag hsc.lhs.1 hl ha', normalize_eval_frag hsc.rhs.1 hr hb', cmpHolds_of_cmpK hcmp⟩
+  have hA := analyzer_anOK hok cs (.fin t) maxSteps
+  have hbox0 : InBox ρ' (Analyzer.analyze m.domain cs (.fin t) maxSteps).variableBounds := by
+    unfold Analyzer.analyze Analyzer.propagate
+    exact propagateLoop_inBox cs hholds _ _ _ _ _ (fromDomain_inBox m.domain (.fin t) hdom)
+  have hbox : InBox ρ' ((Analyzer.analyze m.domain cs (.fin t) maxSteps).enforceable m.domain).variableBounds := by
+    unfold Analyzer.enforceable
+    split
+    · exact fromDomain_inBox m.domain (Analyzer.analyze m.domain cs (.fin t) maxSteps).tolerance hdom
+    · exact hbox0
+  have hpub : ∀ d' ∈ ((Analyzer.analyze m.domain cs (.fin t) maxSteps).enforceable m.domain).applyToDomain m.domain,
+      InDomain d'.ty (ρ' d'.name) := by
+    intro d' hd'
+    simp only [Analyzer.applyToDomain, List.mem_map] at hd'
+    obtain ⟨d, hdm, rfl⟩ := hd'
+    obtain ⟨h1, h2⟩ := applyToVar_inDomain _ d t hA.tol ht (hok.i32 d hdm) hbox (hdom d hdm)
+    rw [h1]; exact h2
+  intro d' hd' hu
+  have hsc : inScope m.domain d'.name := by
+    simp only [Analyzer.applyToDomain, List.mem_map] at hd'
+    obtain ⟨d, hdm, rfl⟩ := hd'
+    rw [applyToVar_name]
+    rw [applyToVar_usage] at hu
+    exact ⟨d, hdm, rfl, hu⟩
+  have := inDomain_of_InDomain (hpub d' hd')
+  rwa [hag _ hsc] at this
+
+/-! ### C01 / C02 for the whole pipeline `Compile.linearize` -/
+
+/-- the analyzer state `Compile.linearize` hands to the linearizer (`none` = flatten fuel exhausted). -/
+def pipelineAnalyzer {α : Type} [Arith α] (m : Model α) (tol : α) (maxSteps : Nat) : Option (Analyzer α) :=
+  (Compile.normalizedForBounds m.constraints).map fun cs =>
+    (Analyzer.analyze m.domain cs tol maxSteps).enforceable m.domain
+
+theorem compile_ok_iff {α : Type} [Arith α] (m : Model α) (tol : α) (maxSteps : Nat) (lm : LinModel α) :
+    Compile.linearize m tol maxSteps = .ok lm ↔
+      ∃ an, pipelineAnalyzer m tol maxSteps = some an ∧
+        linearizeWith m (Compile.toLinBounds an.variableBounds) (an.applyToDomain m.domain) = .ok lm := by
+  unfold Compile.linearize pipelineAnalyzer
+  cases hcs : Compile.normalizedForBounds m.constraints with
+  | none => simp
+  | some cs =>
+    simp only [Option.map_some, Option.some.injEq, exists_eq_left']
+    rfl
+
+theorem fragModel_applyToDomain {m : Model (Ext K)} (an : Analyzer (Ext K)) (hm : FragModel true m m.domain) :
+    FragModel true m (an.applyToDomain m.domain) := by
+  have hs : ∀ x, inScope m.domain x → inScope (an.applyToDomain m.domain) x :=
+    fun x hx => (inScope_applyToDomain an m.domain x).mpr hx
+  exact ⟨hm.obj.mono hs, hm.objDefined, fun c hc =>
+    ⟨(hm.cons c hc).notAssert, (hm.cons c hc).lhs.mono hs, (hm.cons c hc).rhs.mono hs, (hm.cons c hc).defined⟩⟩
+
+/-- `DomRel` and `BoxEnforced` for the `b`, `d` the pipeline computes. -/
+theorem pipeline_hyps {m : Model (Ext K)} {t : K} (ht : 0 ≤ t) (maxSteps : Nat)
+    (hm : FragModel true m m.domain) (hok : DeclOK m.domain) {an : Analyzer (Ext K)}
+    (han : pipelineAnalyzer m (.fin t) maxSteps = some an) (hint : IntRangesInBox an m.domain) :
+    DomRel m (an.applyToDomain m.domain) ∧
+    BoxEnforced (Compile.toLinBounds an.variableBounds) (an.applyToDomain m.domain) := by
+  unfold pipelineAnalyzer at han
+  cases hcs : Compile.normalizedForBounds m.constraints with
+  | none => simp [hcs] at han
+  | some cs =>
+    simp only [hcs, Option.map_some, Option.some.injEq] at han
+    subst han
+    have hA := analyzer_anOK hok cs (.fin t) maxSteps
+    refine ⟨⟨?_, tight_pipeline hA hint, sound_pipeline ht maxSteps hm hok hcs, ?_⟩,
+      boxEnforced_pipeline hA hint hok.nodup⟩
+    · have : (Analyzer.applyToDomain ((Analyzer.analyze m.domain cs (.fin t) maxSteps).enforceable m.domain)
+          m.domain).map (·.name) = m.domain.map (·.name) := by
+        simp only [Analyzer.applyToDomain, List.map_map]
+        exact List.map_congr_left (fun d _ => applyToVar_name _ d)
+      rw [this]; exact hok.nodup
+    · intro dv hdv hu
+      exact (inScope_applyToDomain _ m.domain dv.name).mpr ⟨dv, hdv, rfl, hu⟩
+
+theorem compile_feasible_iff {m : Model (Ext K)} {t : K} (ht : 0 ≤ t) {maxSteps : Nat} {lm : LinModel (Ext K)}
+    (h : Compile.linearize m (.fin t) maxSteps = .ok lm)
+    (hm : FragModel true m m.domain) (hok : DeclOK m.domain)
+    (hint : ∀ an, pipelineAnalyzer m (.fin t) maxSteps = some an → IntRangesInBox an m.domain) (ρ : String → K) :
+    srcFeasible m ρ = true ↔
+      ∃ ρ' : String → K, (∀ x, inScope m.domain x → ρ' x = ρ x) ∧ linFeasible lm ρ' = true := by
+  obtain ⟨an, han, hlin⟩ := (compile_ok_iff m _ maxSteps lm).mp h
+  obtain ⟨hdom, hbox⟩ := pipeline_hyps ht maxSteps hm hok han (hint an han)
+  rw [pl_feasible_iff (fragModel_applyToDomain an hm) hdom hbox hlin ρ]
+  constructor
+  · rintro ⟨ρ', hag, hf⟩
+    exact ⟨ρ', fun x hx => hag x ((inScope_applyToDomain an m.domain x).mpr hx), hf⟩
+  · rintro ⟨ρ', hag, hf⟩
+    exact ⟨ρ', fun x hx => hag x ((inScope_applyToDomain an m.domain x).mp hx), hf⟩
+
+theorem compile_objective {m : Model (Ext K)} {t : K} (ht : 0 ≤ t) {maxSteps : Nat} {lm : LinModel (Ext K)}
+    (h : Compile.linearize m (.fin t) maxSteps = .ok lm)
+    (hm : FragModel true m m.domain) (hok : DeclOK m.domain)
+    (hint : ∀ an, pipelineAnalyzer m (.fin t) maxSteps = some an → IntRangesInBox an m.domain)
+    (ρ : String → K) (hs : srcFeasible m ρ = true) (v : K) (hv : eval ρ m.objective = some v) :
+    (∀ ρ' : String → K, (∀ x, inScope m.domain x → ρ' x = ρ x) → linFeasible lm ρ' = true →
+        ∃ w, linObjective lm ρ' = some w ∧ rel (objReq m) w v) ∧
+    (∃ ρ' : String → K, (∀ x, inScope m.domain x → ρ' x = ρ x) ∧ linFeasible lm ρ' = true ∧
+        linObjective lm ρ' = some v) := by
+  obtain ⟨an, han, hlin⟩ := (compile_ok_iff m _ maxSteps lm).mp h
+  obtain ⟨hdom, hbox⟩ := pipeline_hyps ht maxSteps hm hok han (hint an han)
+  obtain ⟨h1, ρ', hag, hf, ho⟩ := pl_objective (fragModel_applyToDomain an hm) hdom hbox hlin ρ hs v hv
+  refine ⟨fun ρ'' hag'' hf'' => h1 ρ'' (fun x hx => hag'' x ((inScope_applyToDomain an m.domain x).mp hx)) hf'',
+    ρ', fun x hx => hag x ((inScope_applyToDomain an m.domain x).mpr hx), hf, ho⟩
+
 end Rooc.LinP
